@@ -10,6 +10,14 @@ import (
 	"unicode/utf8"
 )
 
+// ValuesOf returns the fixed values of a boundary shape, or n generated ones.
+func ValuesOf(u *Universe, s *Shape, rng *rand.Rand, n int) []*Val {
+	if f := u.Fixed[s]; len(f) > 0 {
+		return f
+	}
+	return Values(s, rng, n)
+}
+
 // Values returns n values of shape s. Value 0 is the zero/empty value, value 1 a
 // boundary-heavy one; the others are seeded and boundary-biased (0, ±1, min/max,
 // NaN with payload, −0.0, empty / bound-length collections, non-UTF-8 strings,
@@ -200,10 +208,14 @@ func (g *valGen) gen(s *Shape, depth int, key bool) *Val {
 	case BigInt:
 		b := new(big.Int)
 		if !zero {
-			switch r.Intn(9) {
+			switch r.Intn(11) {
 			case 0:
 			case 1:
 				b.SetInt64(1)
+			case 9:
+				b.Add(new(big.Int).Lsh(big.NewInt(1), 256), big.NewInt(1)) // 2^256+1: rejected
+			case 10:
+				b.Sub(new(big.Int).Lsh(big.NewInt(1), 257), big.NewInt(2)) // 2^257-2: rejected
 			case 2:
 				b.Sub(new(big.Int).Lsh(big.NewInt(1), 256), big.NewInt(1)) // 2^256-1
 			case 3:
@@ -226,7 +238,11 @@ func (g *valGen) gen(s *Shape, depth int, key bool) *Val {
 			return &Val{Time: time.Unix(0, 0).UTC()}
 		}
 		var t time.Time
-		switch r.Intn(10) {
+		switch r.Intn(12) {
+		case 10:
+			t = time.Unix(math.MaxInt64/1_000_000_000, int64(r.Intn(854775808))) // inside the last representable second
+		case 11:
+			t = time.Unix(math.MaxInt64/1_000_000_000, []int64{0, 1, 854775806, 854775807}[r.Intn(4)])
 		case 0:
 			t = time.Unix(0, 0)
 		case 1:
